@@ -27,7 +27,7 @@ Next ==
   /\ \/ \E t \in Mine(DOMAIN tcs) : \/ Redefine(t, "integer", "strint") \/ Redefine(t, "newtype", "never") \/ Remove(t, "string")
      \/ \E c \in Mine(DOMAIN cls) : \/ Extend(c, {}, 0) \/ Extend(c, {"override-minimum"}, 0) \/ Extend(c, {"add-xnew"}, 0)
                                     \/ (\E t \in Mine(DOMAIN tcs) \ {cls[c].tc} : Extend(c, {}, t))
-                                    \/ Create(c, "", "") \/ ("vnew" \notin DOMAIN byName /\ Create(c, "vnew", "http://new-meta.invalid/schema"))     \* fresh ids only
+                                    \/ Create(c, "", "") \/ ("vnew" \notin DOMAIN byName /\ Create(c, "vnew", NewMetaId))     \* fresh ids only
                                     \/ NewValidator(c, FALSE) \/ NewValidator(c, TRUE)
      \/ \E f \in DOMAIN fcs : Checks(f, "tag", "even") \/ Checks(f, "email", "odd")
      \/ ClsChecks("tag", "odd") \/ ClsChecks("tag2", "even")
